@@ -118,6 +118,21 @@ Theorem C03_construct_interleave_fit : forall s h c z d,
 Proof. intros. rewrite construct_interleave_fit by assumption. reflexivity. Qed.
 Print Assumptions C03_construct_interleave_fit.
 
+(* RE-USING ONE MODEL OBJECT: the object's own prior state (what it was fitted on before, solver state, caches) is part
+   of the state a fit may not read.  Construct a seeded hourly model, then ANYTHING -- fits of this very object on the
+   same or on other data, to_json, from_json included -- then fit: the result of a fresh object fitted at once *)
+Theorem C03_refit_equals_fresh_fit : forall s h c z d,
+  out (run s (NewHourly c (Some z) :: h ++ [FitObj (List.length (g_objs s)) d])) = out (run s [FitHourly d c (Some z)]).
+Proof. intros. rewrite refit_equals_fresh. reflexivity. Qed.
+Print Assumptions C03_refit_equals_fresh_fit.
+
+(* the same for DailyModel / BillingModel objects: fit(A) ... fit(B) on one object ends as a fresh fit(B) *)
+Theorem C03_refit_daily_billing_equals_fresh_fit : forall s h cfg d,
+  out (run s (NewDB Daily cfg :: h ++ [FitDB (List.length (g_dbs s)) d])) = out (run s [FitDaily d cfg]) /\
+  out (run s (NewDB Billing cfg :: h ++ [FitDB (List.length (g_dbs s)) d])) = out (run s [FitBilling d cfg]).
+Proof. intros. rewrite !refit_db_equals_fresh. split; reflexivity. Qed.
+Print Assumptions C03_refit_daily_billing_equals_fresh_fit.
+
 (* the JIT cache (warm flag) carries what populated it; a seeded fit does not depend on it: same result from a cold cache,
    from a cache populated by default fits, and from a cache populated by any developer profile, in this or an earlier
    process.  The model may say so because of C03_fitting_writes_no_process_global_state below (numba freezes
@@ -260,6 +275,14 @@ Example C03_nonvacuous_jit_cache :
   g_jit (fst (run (init_cache 1 1 []) [FitDaily 1 7; FitDaily 2 0])) = [(Daily, 7)] /\
   out (run (init_cache 1 1 []) [FitDaily 1 7; FitDaily 2 0]) = out (run (init_cache 2 1 [(Daily, 7)]) [FitDaily 2 0]) /\
   out (run (init_cache 2 1 [(Daily, 7)]) [FitDaily 2 0]) = out (run (init_cache 3 1 [(Daily, 0)]) [FitDaily 2 0]).
+Proof. vm_compute. repeat split; reflexivity. Qed.
+
+(* one hourly object fitted on data 5, serialised, fitted on data 6, then on 5 again; one daily object fitted on 1 then 2 *)
+Example C03_nonvacuous_refit :
+  out (run (init 1 1) (NewHourly ex_cfg (Some 9) :: [FitObj 0 5; ToJson 0; FitObj 0 6] ++ [FitObj 0 5])) =
+    out (run (init 2 8) [FitHourly 5 ex_cfg (Some 9)]) /\
+  out (run (init 1 1) (NewDB Daily 0 :: [FitDB 0 1] ++ [FitDB 0 2])) = out (run (init 2 1) [FitDaily 2 0]) /\
+  db_last (nth 0 (g_dbs (fst (run (init 1 1) [NewDB Daily 0; FitDB 0 1]))) {| db_fam := Daily; db_cfg := 0; db_last := None |}) = Some 1.
 Proof. vm_compute. repeat split; reflexivity. Qed.
 
 Example C03_nonvacuous_batch :
